@@ -324,7 +324,9 @@ Definition Tw : space := mk_space [
   (8, ent (DInteger (u "::std::num::NonZeroU32")));
   (9, ent (DMap 1 1));
   (10, ent (DStruct (u "W") None [mkProp (u "k") TypeIR.RNone PRequired 2; mkProp (u "extra") RFlatten PRequired 9] false));
-  (11, ent (DNewtype (u "IEnum") None 2 (CEnum [JInt 1; JInt 2])))
+  (11, ent (DNewtype (u "IEnum") None 2 (CEnum [JInt 1; JInt 2])));
+  (12, ent (DEnum (u "E") None TagExternal [mkVariant (u "U") (u "U") VSimple; mkVariant (u "V") (u "V") (VTuple [2])]
+                  false []))
 ]%N.
 Definition re0 (p s : ustring) : bool := false.
 
@@ -340,6 +342,16 @@ Proof.
   repeat split; try (vm_compute; reflexivity).
   - eexists. split; vm_compute; reflexivity.
   - eexists. split; vm_compute; reflexivity.
+Qed.
+
+(* still refuted on the repaired tree (finding C06-F13): a VALID default selecting a variant whose payload is a
+   one-element tuple is rendered `E::V(3_i64)` while the variant is declared `V((i64,))` *)
+Lemma default_typed_tuple1_variant_refuted :
+  exists T f t d k e, validate_value re0 T f t d = ROk k /\ output_value T f t d = ROk e /\
+                      expr_typed T f e t = false /\ expr_any (is_tuple1_variant T) e = true.
+Proof.
+  exists Tw, 3%nat, 12, (JObj [(u "V", JArr [JInt 3])]), KSpecific, (EVarTuple (u "E") (u "V") [ENum (JInt 3) (u "i64")]).
+  repeat split; vm_compute; reflexivity.
 Qed.
 
 (* ------------------------------------------------------------------ invalid shapes are rejected *)
